@@ -41,7 +41,7 @@ REQUIRED = [
 RULE = (
     "case = url (one generated valid URL assigned to a request in a random initial state: origin-form, OPTIONS *, or "
     "CONNECT authority-form) or edits (1..6 host/port/url/method edits); hosts: DNS names (1-5 labels, case, '_' '-', trailing dot, long), IDN (9 scripts; U-label, upper-case "
-    "U-label, A-label, upper-case A-label), IPv4, IPv6 (::1, ::, full, upper-case hex, v4-mapped); ports: absent, "
+    "and mixed-case U-label, A-label, upper- and mixed-case A-label, optional trailing dot), IPv4, IPv6 (::1, ::, full, upper-case hex, v4-mapped); ports: absent, "
     "empty, default, zero-padded, 1..65535; ~1/3 of the URLs name the request's current (host, port) again, mostly under the "
     "other scheme with the port explicit or elided (Host/authority text must follow the scheme); targets: RFC 3986 pchar / %xx / ;params / empty params / query / fragment / "
     "'//' / dot segments / empty path with query. distinct = (kind, host class, IDN form, port form, target feature "
@@ -56,7 +56,8 @@ ASSUMPTIONS = [
     "URLs with userinfo, zone ids, raw non-ASCII or characters outside RFC 3986 in the path are not 'valid http URLs' and are not generated",
     "a URL whose host is written as raw U-label (an IRI) may be rejected with ValueError (the repository's tests require that); "
     "counted as url.non_ascii_url_rejected; if accepted, all monitors apply. The A-label form must work",
-    "a Host header carrying the U-label (UTF-8) form of an IDN is accepted as pointing at the host; counted as edit.host_header_non_ascii",
+    "a Host header / authority must be ASCII (uri-host, RFC 9110 7.2): an IDN has to appear as A-label there; in the read-back of "
+    "Request.url (a str for display and re-assignment) the U-label form is accepted as the same host",
     "edited ports are 1..65535",
     "generated ASCII labels never have '--' in positions 3-4 (reserved LDH labels, RFC 5891): a random 'xn--x' is not a valid A-label, "
     "so the host setter rejecting it (UnicodeError from the idna codec) is outside the property's domain of valid hosts",
@@ -114,23 +115,31 @@ def gen_host(r):
     if k < 0.62:
         n = r.choice([1, 1, 2])
         labs = r.sample(IDN_LABELS, n)
-        form = r.choice(["ulabel", "ulabel-upper", "alabel", "alabel-upper"])
+        form = r.choice(["ulabel", "ulabel-upper", "ulabel-mixed", "alabel", "alabel-upper", "alabel-mixed"])
         out = []
         for lab in labs:
             if form == "ulabel":
                 out.append(lab)
             elif form == "ulabel-upper":
                 out.append(lab.upper() if lab.upper().lower() == lab else lab)
+            elif form == "ulabel-mixed":
+                mixed = "".join(c.upper() if r.random() < 0.5 else c for c in lab)
+                out.append(mixed if mixed.lower() == lab else lab)
             elif form == "alabel":
                 out.append(lab.encode("idna").decode())
-            else:
+            elif form == "alabel-upper":
                 out.append(lab.encode("idna").decode().upper())
+            else:
+                out.append("".join(c.upper() if r.random() < 0.5 else c for c in lab.encode("idna").decode()))
         pos = r.randrange(len(out) + 1)
         out[pos:pos] = [gen_label(r)] if r.random() < 0.6 else []
         out.append(r.choice(["de", "com", "example", out[-1]]))
         h = ".".join(out)
         if len(h.encode("idna")) > 250:
             h = ".".join(out[-2:])
+        if r.random() < 0.1:
+            h += "."  # fully qualified form
+            form += "-dot"
         return h, h, "idn", form
     if k < 0.78:
         h = ".".join(str(r.choice([0, 1, 10, 127, 192, 255, r.randint(0, 255)])) for _ in range(4))
@@ -301,6 +310,8 @@ def classify(monitor, host, target="", port_elided=True):
         return "ipv6-literal-host-unbracketed"
     if monitor == "connect-url" and ref.host_is_ipv6(host):
         return "ipv6-literal-unbracketed-in-connect-url"
+    if monitor == "host-header-not-ascii" and ref.host_is_idn(host):
+        return "idn-host-header-written-as-utf8-u-label"
     if monitor == "reassign-raises" and ref.host_is_idn(host):
         return "idn-host-readback-url-not-reassignable"
     if monitor == "authority-unparseable" and not port_elided and ref.host_is_idn(host.rstrip(".").rsplit(".", 1)[-1]):
@@ -340,7 +351,11 @@ def check_pointing(ctx, req, had_host, had_auth, host_for_class, wit):
             ok = False
         else:
             if not v.isascii():
-                ctx.count("edit.host_header_non_ascii")
+                # RFC 9110 7.2 / RFC 3986 3.2.2: Host = uri-host [":" port] is ASCII; an IDN goes on the wire as A-label.
+                # Raw UTF-8 is not a host any recipient resolves or matches (and differs from the authority mitmproxy
+                # itself writes for the same request), so it does not point at the destination.
+                ctx.violation("host-header-not-ascii", {**wit, "host_header": v, "want": want}, classify("host-header-not-ascii", host_for_class))
+                return False
             try:
                 got = ref.parse_hostport(v, req.scheme)
             except ref.RefURLError as e:
